@@ -61,7 +61,9 @@ Record dep := { d_target : fid; d_source : fid; d_mode : dmode; d_delete : bool 
 
 Record db := { rows : list row; deps : list dep; maxrun : Z }.
 Record world := { fs : list (name * file); dbs : db; clock : N;
-                  updepth : nat   (* number of directories above the project directory *) }.
+                  updepth : nat;  (* number of directories above the project directory *)
+                  hints : list name (* order in which out-of-band targets are handed to redo-unlocked
+                                       (a HashSet in the code: nondeterministic; observed from the run) *) }.
 
 (* ---------------------------------------------------------------- fs *)
 Fixpoint fs_get (l : list (name * file)) (n : name) : option file :=
@@ -88,18 +90,19 @@ Definition read_stamp (w : world) (n : name) : stamp :=
 (* every write takes a fresh mtime (A-STAMP) *)
 Definition write_file (w : world) (n : name) (data : list N) (sc : option script) : world :=
   {| fs := fs_put (fs w) n {| f_data := data; f_script := sc; f_mt := clock w |};
-     dbs := dbs w; clock := clock w + 1; updepth := updepth w |}.
+     dbs := dbs w; clock := clock w + 1; updepth := updepth w; hints := hints w |}.
 Definition remove_file (w : world) (n : name) : world :=
-  {| fs := fs_del (fs w) n; dbs := dbs w; clock := clock w; updepth := updepth w |}.
+  {| fs := fs_del (fs w) n; dbs := dbs w; clock := clock w; updepth := updepth w; hints := hints w |}.
 (* rename keeps the bytes; the destination is a new inode with the source's mtime *)
 Definition rename_file (w : world) (src dst : name) : world :=
   match fs_get (fs w) src with
-  | Some f => {| fs := fs_put (fs_del (fs w) src) dst f; dbs := dbs w; clock := clock w; updepth := updepth w |}
+  | Some f => {| fs := fs_put (fs_del (fs w) src) dst f; dbs := dbs w; clock := clock w; updepth := updepth w;
+                 hints := hints w |}
   | None => w
   end.
 
 Definition set_db (w : world) (d : db) : world :=
-  {| fs := fs w; dbs := d; clock := clock w; updepth := updepth w |}.
+  {| fs := fs w; dbs := d; clock := clock w; updepth := updepth w; hints := hints w |}.
 
 (* ---------------------------------------------------------------- db *)
 Definition always_name : name := [47;47;65;76;87;65;89;83].   (* "//ALWAYS" *)
@@ -110,7 +113,10 @@ Definition empty_row (n : name) : row :=
      r_failed := None; r_stamp := None; r_csum := None |}.
 
 Definition init_db : db := {| rows := [empty_row always_name]; deps := []; maxrun := first_runid |}.
-Definition init_world (depth : nat) : world := {| fs := []; dbs := init_db; clock := 1; updepth := depth |}.
+Definition init_world (depth : nat) : world :=
+  {| fs := []; dbs := init_db; clock := 1; updepth := depth; hints := [] |}.
+Definition set_hints (w : world) (h : list name) : world :=
+  {| fs := fs w; dbs := dbs w; clock := clock w; updepth := updepth w; hints := h |}.
 
 Fixpoint find_row (l : list row) (n : name) (i : nat) : option fid :=
   match l with
@@ -377,6 +383,11 @@ Definition tmp_of (t : name) : name := t ++ b_tmp.
 Definition dedupe_names (l : list name) : list name :=
   fold_left (fun acc n => if existsb (bytes_eqb n) acc then acc else acc ++ [n]) l [].
 
+(* the hinted names first, in hint order; the others after, in their own order *)
+Definition order_by_hints (h : list name) (l : list name) : list name :=
+  filter (fun n => existsb (bytes_eqb n) l) (dedupe_names h)
+  ++ filter (fun n => negb (existsb (bytes_eqb n) h)) l.
+
 (* ---------------------------------------------------------------- the build *)
 (* The pieces of a job are top-level definitions; the nested command a script
    runs (redo-ifchange deps) is passed in as [rec] (open recursion), and
@@ -592,7 +603,7 @@ Definition start (rec : rec_t) (fuel : nat) (e : env) (m : mode) (t : name) (w :
               if e_no_oob e then prepend_events evd (start_self rec e t f before w)
               else
                 (* start_deps_unlocked: redo-unlocked t l *)
-                let names := dedupe_names (map (fun i => r_name (get_row (dbs w) i)) l) in
+                let names := order_by_hints (hints w) (dedupe_names (map (fun i => r_name (get_row (dbs w) i)) l)) in
                 let env1 := {| e_runid := runid; e_target := e_target e; e_unlocked := false;
                                e_no_oob := true; e_keep_going := e_keep_going e;
                                e_cycles := e_cycles e |} in
@@ -740,6 +751,7 @@ Inductive hstep :=
 | SWrite (n : name) (data : list N)            (* user creates / edits a data file *)
 | SWriteDo (n : name) (sc : script)            (* user creates / edits a .do file *)
 | SRemove (n : name)
+| SHint (h : list name)                        (* observed out-of-band order for the next command *)
 | SCmd (c : cmd).
 
 Definition do_step (s : hstep) (w : world) : world * option output :=
@@ -747,6 +759,7 @@ Definition do_step (s : hstep) (w : world) : world * option output :=
   | SWrite n data => (write_file w n data None, None)
   | SWriteDo n sc => (write_file w n [s_payload sc] (Some sc), None)
   | SRemove n => (remove_file w n, None)
+  | SHint h => (set_hints w h, None)
   | SCmd c => let '(w', o) := exec c w in (w', Some o)
   end.
 
